@@ -6,9 +6,15 @@
    the tree under check; the obligation is that there is none.  (Implicit panics - index, nil, closed channel - are
    what the models and the harness are about; this tie only rules out the explicit ones, whatever input or
    schedule would reach them.) *)
-From Coq Require Import List NArith String.
+From Coq Require Import List NArith String Bool.
 From JT.Gen Require Import Tables_gen.
 Import ListNotations.
 
 Theorem tables_no_explicit_abort : gen_abort_calls = [].
+Proof. reflexivity. Qed.
+
+(* the walk was not empty: the packages the properties are anchored in were among the directories scanned *)
+Theorem tables_abort_scope :
+  forallb (fun d => existsb (String.eqb d) gen_abort_dirs)
+    ["attachment"; "protocol/jt1078"; "protocol/jt808"; "protocol/model"; "service"; "terminal"]%string = true.
 Proof. reflexivity. Qed.
